@@ -14,7 +14,8 @@ RULE = ('cases = (abbreviation with and without explicit ${n:ph} fields, syntax,
         'html/xml/jsx/vue/pug/haml/slim and stylesheet syntaxes; newline in \\n, \\r\\n, \\r; callbacks: identity, letter-doubling, marker-wrapping (never '
         'touching blank-only pushes); EVERY callback invocation of every run is checked. Numbering is read back per attribute value / element content for '
         'the HTML-family syntaxes. Non-trivial = at least 3 callback events and one tabstop; distinct by (abbreviation, syntax, options)')
-ASSUMPTIONS = ['line = number of newline strings written before the offset, column = distance from the end of the last newline string (callbacks add no newlines)',
+ASSUMPTIONS = ['line = number of line breaks (CRLF, CR or LF) in the final result before the offset, column = distance from the end of the last one; the callbacks of the harness '
+               'return what they are given (or a same-line rewrite of it), so line breaks enter only through the configured newline and through multi-line placeholders',
                'text with explicit fields is only put on leaves (a value with fields AND children is split around the children: two values)',
                'the 1,2,3... clause is checked when the abbreviation has no explicit field and no snippet name whose definition carries fields']
 FLOORS = {'quick': {'run': 22000, 'callback-event': 1500000, 'stylesheet-run': 3500}, 'thorough': {'run': 450000, 'callback-event': 12000000, 'stylesheet-run': 60000}}
@@ -41,7 +42,8 @@ def gen_case(rng, explicit, snippet_names):
     texts = ['t', 'hello world', 'l1\nl2']
     if explicit:
         attrs += ['[f=${1:f1}]', '[g="${2:f2} x ${4:f4}"]', '[h=${0:f0}]', '[m=${3:f3}${3:f3}]', '[n="a ${1:f1}"]']
-        texts += ['a ${1:f1} b ${3:f3}', '${0:f0}', '${2:f2}${2:f2}', 'x ${5:f5}\ny ${1:f1}']
+        texts += ['a ${1:f1} b ${3:f3}', '${0:f0}', '${2:f2}${2:f2}', 'x ${5:f5}\ny ${1:f1}', 'p ${1:m1\nm2} q', '${2:r1\r\nr2}${1:s}', 'c1\rc2', 'e1\n\ne3']
+        attrs += ['[o="${1:v1\nv2}"]']
     tree = gen_abbr.gen_tree(rng, names=names, p_text=0.3, texts=texts, attrs=attrs, p_attr=0.45, p_class=0.2, p_id=0.1, p_group=0.12, p_rep=0.15,
                              max_rep=3, classes=['c1', 'c2'], ids=['i1', 'i2'], p_selfclose=0.0, **(dict(max_depth=rng.choice([2, 3, 4])) if rng.random() < 0.88 else
                                 dict(max_depth=rng.choice([8, 10, 13]), max_children=rng.choice([1, 2]), p_children=0.92)))
@@ -87,7 +89,7 @@ class Run:
 
 def check_positions(out, events, nl):
     "offline trace checker; returns None or (why, event)"
-    ends = [m.end() for m in re.finditer(re.escape(nl), out)]
+    ends = [m.end() for m in re.finditer(r'\r\n|\r|\n', out)]      # a line break is a line break, whichever newline string is configured
     for kind, off, line, col, r in events:
         if not all(isinstance(x, int) for x in (off, line, col)):
             return ('non-integer position', [kind, off, line, col, r])
@@ -193,7 +195,8 @@ class Mon:
                         'events(first 6)': [list(e) for e in run.ev[:6]]})
 
 
-CSS_ABBRS = ['p10+m', 'bd', 'm+p+c', 'anim', '@kf', 'trf:r', 'bxsh', 'c#f+bgc', 'p${1:foo}', 'lg', 'fz1.5+lh', '@m', 'cnt', 'to', 'bgp', 'p!+m0-a']
+CSS_ABBRS = ['p10+m', 'bd', 'm+p+c', 'anim', '@kf', 'trf:r', 'bxsh', 'c#f+bgc', 'p${1:foo}', 'lg', 'fz1.5+lh', '@m', 'cnt', 'to', 'bgp', 'p!+m0-a',
+             'c:"a\nb"', "cnt:'x\r\ny'${1:z}", 'bg:u("a\nb")', 'ff:"l1\rl2"', 'cnt:"one\n\nthree"', 'p${1:a\nb}']
 
 
 def run_shard(desc, ctx):
